@@ -73,11 +73,11 @@ def parseInv (s : String) : Option (List Inv) :=
   if s == "-" then some [] else
   (s.splitOn ",").mapM (fun e =>
     match e.splitOn ":" with
-    | [i, a, b, st] =>
+    | [i, a, b, st, fp] =>
       let t (x : String) : Option (Option (List Nat)) := if x == "nil" then some none else (tagsOf x).map some
-      match i.toNat?, t a, t b with
-      | some i, some a, some b => some ⟨i, a, b, st == "1"⟩
-      | _, _, _ => none
+      match i.toNat?, t a, t b, parseHex fp with
+      | some i, some a, some b, some fp => some ⟨i, a, b, st == "1", fp⟩
+      | _, _, _, _ => none
     | _ => none)
 
 def splitSemi (res : String) : List (List String) := (res.splitOn " ; ").map words
@@ -93,7 +93,9 @@ def step4 (op res : String) : List String :=
   match words op, splitSemi res with
   | ["dg4", bound, oob, chain, _], [parsed, outW, invW] =>
     match bound.toNat?, parsed with
-    | some bound, tag :: fields =>
+    | some bound, tag :: fields0 =>
+      let fields := fields0.take 10
+      let orig : List Nat := ((fields0.drop 10).headD "-" |> parseHex).getD []
       let input : Option (Option Req4) := if tag == "U" then some none else (parseReq4 fields).map some
       match input with
       | none => ["DIVERGE drift unparsed-view"]
@@ -130,7 +132,7 @@ def step4 (op res : String) : List String :=
           let f11 := if C11.holds input out then [] else [s!"FAIL C11 {res}"]
           let f15 := if C15.holds bound oob input out then [] else [s!"FAIL C15 expected {(input.bind (fun r => match out with | .send resp _ _ _ _ => some (C15.expected bound oob r resp) | _ => none)).map (fun e => (u32Hex e.1, e.2.1, e.2.2.1, e.2.2.2))} got {fmtOut4 out}"]
           let f13 := if !ranChain then (if inv.isEmpty then [] else ["FAIL C13 handlers ran for a datagram that is not answered"])
-                     else if C13.holdsLog n inv sentTags then [] else [s!"FAIL C13 chain={chain} log={invW} sent={sentTags}"]
+                     else if C13.holdsLog n inv sentTags orig then [] else [s!"FAIL C13 chain={chain} log={invW} sent={sentTags}"]
           brs ++ (if same then [] else [s!"DIVERGE dom model={fmtOut4 m}"]) ++ f11 ++ f15 ++ f13
         | _, _ => brs ++ [s!"DIVERGE dom unparsed-result {" ".intercalate outW}", s!"FAIL C01 HandleMsg4: {" ".intercalate outW}"]
     | _, _ => ["DIVERGE drift unparsed-op"]
@@ -161,7 +163,9 @@ def step6 (op res : String) : List String :=
   match words op, splitSemi res with
   | ["dg6", bound, oob, chain, src, _, _], [parsed, outW, invW] =>
     match bound.toNat?, addr16 src, parsed with
-    | some bound, some src, tag :: fields =>
+    | some bound, some src, tag :: fields0 =>
+      let orig : List Nat := (fields0.headD "-" |> parseHex).getD []
+      let fields := fields0.drop 1
       let input : Option (Option Pkt6) :=
         if tag == "U" then some none else (parseTree fields []).map (fun (ls, m) => some ⟨ls, m.map (·.1)⟩)
       match input with
@@ -191,7 +195,7 @@ def step6 (op res : String) : List String :=
                 -- a drop after the chain ran: nil response, or the outer layer is not a Relay-Forward
                 let relayDrop := match input with | some d => (match d.layers with | l :: _ => l.mt != 12 | [] => false) | none => false
                 if relayDrop then [] else
-                if C13.holdsLog hs.length inv none then [] else [s!"FAIL C13 chain={chain} log={invW} sent=none"]
+                if C13.holdsLog hs.length inv none orig then [] else [s!"FAIL C13 chain={chain} log={invW} sent=none"]
             | none => ["DIVERGE drift unparsed-inv"]
           brs ++ (if m == .drop then [] else [s!"DIVERGE dom model={fmtOut6 m}"]) ++ f13
         | "send" :: ifi :: peer :: _port :: tree =>
@@ -200,7 +204,7 @@ def step6 (op res : String) : List String :=
             let out : Out6 := .send ls ⟨mm.mt, mm.xid, mm.cid, mm.rapid, tags⟩ ifi
             let f12 := (if C12.holds bound oob src input out then [] else [s!"FAIL C12 {res}"]) ++
                        (if addr16 peer == some src then [] else ["FAIL C12 reply not sent to the source address"])
-            let f13 := if C13.holdsLog hs.length inv (some tags) then [] else [s!"FAIL C13 chain={chain} log={invW} sent={tags}"]
+            let f13 := if C13.holdsLog hs.length inv (some tags) orig then [] else [s!"FAIL C13 chain={chain} log={invW} sent={tags}"]
             brs ++ (if m == out then [] else [s!"DIVERGE dom model={fmtOut6 m}"]) ++ f12 ++ f13
           | _, _, _ => brs ++ ["DIVERGE dom unparsed-result"]
         | _ => brs ++ [s!"DIVERGE dom unparsed-result {" ".intercalate outW}", s!"FAIL C01 HandleMsg6: {" ".intercalate outW}"]
